@@ -34,6 +34,8 @@ def run(db, rep, tier):
     rep.rule("R4-no-skip", "every well-formed SACK block above the ACK is processed piece by piece", 1)
     rep.rule("R5-record-above", "a SACKed piece that starts above the cumulative ACK (any distance >= 1, across the wrap) is recorded "
                                 "in the interval set, never folded into the cumulative ACK", 1)
+    rep.rule("R7-tracker-reads-sack", "the ACK tracker a flow creates reads SACK blocks: its use_sack argument is not taken from the flow's own "
+                                      "SYN (SACK-permitted announces willingness to RECEIVE SACKs; the blocks this tracker sees are sent by the peer)", 2)
     rep.rule("R6-sack-always", "SACK blocks are processed both on segments that advance the cumulative ACK and on those that do not", 1)
     r1(db, rep)
     r2(db, rep)
@@ -44,6 +46,7 @@ def run(db, rep, tier):
     r4(db, rep)
     r5(db, rep)
     r6(db, rep)
+    r7(db, rep)
     rep.explanation = ("Narrow claim: decides the query's decision table (values are only touched through seq_compare's sign and "
                        "set membership, so the table is complete), the ACK-advance/cleanup pairing, the comparison discipline "
                        "and that no SACK block is skipped, that a piece above the ACK is recorded rather than merged (R5, finite "
@@ -254,3 +257,33 @@ def r6(db, rep):
                       "process_sack() is only reached after an ACK advance: SACK blocks on duplicate ACKs are dropped")
     else:
         rep.ok("R6-sack-always", key, facts.loc(f, calls[0]), "process_sack() reachable both through and around the ACK advance")
+
+
+def r7(db, rep):
+    n = 0
+    for fid, f in sorted(db.functions.items()):
+        if f.get("rec") != "Tins::TCPIP::Flow" or not f.get("body"):
+            continue
+        for x in facts.fn_nodes(f):
+            if x["k"] not in ("CXXConstructExpr", "CXXTemporaryObjectExpr", "CXXFunctionalCastExpr") or x.get("crec") != AT:
+                continue
+            args = x.get("c", [])
+            if len(args) < 1 or x["k"] == "CXXFunctionalCastExpr":
+                continue
+            n += 1
+            key = "%s:AckTracker#%d" % (f["qual"].split("::")[-1], n)
+            if len(args) < 2 or args[1]["k"] == "CXXDefaultArgExpr" or facts.cval(args[1]) == 1:
+                rep.ok("R7-tracker-reads-sack", key, facts.loc(f, x), "use_sack is true")
+                continue
+            t = facts.expr_str(args[1])
+            if facts.cval(args[1]) == 0:
+                rep.violation("R7-tracker-reads-sack", key, facts.loc(f, x), "the tracker is created with SACK processing switched off")
+            elif "sack_permitted" in t:
+                rep.violation("R7-tracker-reads-sack", key, facts.loc(f, x),
+                              "use_sack = `%s` is taken from this flow's own SYN; whether SACK blocks arrive is decided by the SYN of the "
+                              "other direction, so with a one-sided announcement SACK blocks are ignored and SACKed segments are reported "
+                              "unacknowledged" % t[:60])
+            else:
+                rep.analysis_broken("%s: use_sack = `%s` is neither constant nor a form the rule knows" % (key, t[:60]))
+    if n < 2:
+        rep.analysis_broken("only %d AckTracker constructions found in Flow" % n)
